@@ -2,6 +2,7 @@
 package rules
 
 import (
+	"strconv"
 	"fmt"
 	"go/ast"
 	"go/constant"
@@ -250,3 +251,5 @@ func sprintf(format string, a ...interface{}) string { return fmt.Sprintf(format
 
 var _ = token.NoPos
 var _ = strings.TrimSpace
+
+func unquote(s string) (string, error) { return strconv.Unquote(s) }
